@@ -517,7 +517,7 @@ func runC19(c *Ctx) {
 	r.Assume("the empty-Certificate-message case is exercised with a hand-written TLS 1.2 server flight only (crypto/tls servers cannot send one; no TLS 1.3 variant)")
 	r.Assume("HTTP bytes sent to a metadata server whose chain was (wrongly) accepted are reported through accepted-bad-chain only; bytes-before-auth is about CQL bytes to nodes")
 	r.Require("metadata/accepted", "metadata/rejected", "node/accepted", "node/rejected", "startup_frames_on_accepted_nodes", "tls12/rejected", "tls13/rejected",
-		"empty/metadata/rejected", "empty/node-cp/rejected", "empty/node-row/rejected", "client_cert_checked/node", "client_cert_checked/metadata", "sni_checked/node-row", "sni_checked/node-cp", "sni_checked/metadata")
+		"empty/metadata/rejected", "empty/node-cp/rejected", "empty/node-row/rejected", "client_cert_checked/node", "client_cert_checked/metadata", "sni_checked/node-row", "sni_checked/node-cp", "sni_checked/metadata", "expiry_connections_after_expiry", "expiry_accepted_while_valid")
 
 	old := net.DefaultResolver
 	net.DefaultResolver = c19StubResolver()
@@ -525,16 +525,148 @@ func runC19(c *Ctx) {
 
 	if c.Replay != nil {
 		if f, ok := c.Replay["index"].(float64); ok {
-			c19RunName(c, int(f))
+			if c.Replay["kind"] == "expiry" {
+				c19Expiry(c, int(f))
+			} else {
+				c19RunName(c, int(f))
+			}
 			return
 		}
 	}
 	n := c.Pick(2*len(c19Shapes), 2000)
 	c.Parallel(n, 8, func(i int) { c19RunName(c, i) })
+	c.Parallel(c.Pick(6, 60), 6, func(i int) { c19Expiry(c, i) })
 	c19DNSQueries.Lock()
 	r.Obs("dns_stub_queries", c19DNSQueries.n)
 	c19DNSQueries.Unlock()
 	r.Obs("names_planned_all_shards", n)
 	r.Extra["names_total"] = n
 	r.Extra["cases_per_name"] = len(c19Plans(c19TargetMeta)) + len(c19Plans(c19TargetCP, c19TargetRow))
+}
+
+// c19Expiry: "verifies ... at the current time". Endpoints are created while the node's certificate is valid; the
+// certificate then expires; a connection through the SAME endpoint objects (what every reconnect of the proxy uses) must
+// be rejected before any CQL byte is sent. Accept/reject is fixed by construction: the leaf's notAfter is 1.2 s after
+// its creation, the second connection is made after that instant has been waited out.
+func c19Expiry(c *Ctx, idx int) {
+	r := c.R
+	rng := c.Rng(100000 + idx)
+	host, shape, _ := c19GenName(rng, idx)
+	c.Step("expiry %d shape=%s host=%s", idx, shape, host)
+	now := time.Now()
+	pki := newC19PKI(now, fmt.Sprintf("x%d", idx))
+	meta, err := newC19Station("metadata", pki.clientDER)
+	if err != nil {
+		r.Inconc("cannot listen: " + err.Error())
+		return
+	}
+	defer meta.close()
+	node, err := newC19Station("node", pki.clientDER)
+	if err != nil {
+		r.Inconc("cannot listen: " + err.Error())
+		return
+	}
+	defer node.close()
+	zr, _, err := pki.bundleZip(rng, host, meta.port)
+	if err != nil {
+		r.Inconc("cannot build bundle zip: " + err.Error())
+		return
+	}
+	bundle, err := astra.LoadBundleZip(zr)
+	if err != nil {
+		r.Inconc("LoadBundleZip: " + err.Error())
+		return
+	}
+	resolver := astra.NewResolver(bundle, 15*time.Second)
+	_, cp := c19UUID(rng, 3)
+	body, _ := json.Marshal(map[string]interface{}{"version": 1, "region": "", "contact_info": map[string]interface{}{
+		"type": "sni_proxy", "local_dc": "dc1", "sni_proxy_address": fmt.Sprintf("127.0.0.1:%d", node.port), "contact_points": []string{cp}}})
+	meta.setMetadata(body)
+	msc := &c19ServerCase{version: tls.VersionTLS13}
+	msc.chain, _ = pki.chain(rng, ckValid, host, host)
+	meta.setCase(msc)
+	ctx, cancel := context.WithTimeout(context.Background(), 20*time.Second)
+	eps, rerr := resolver.Resolve(ctx)
+	cancel()
+	meta.setCase(nil)
+	if rerr != nil || len(eps) == 0 {
+		r.Inconc(fmt.Sprintf("expiry: Resolve failed with a valid chain: %v", rerr))
+		return
+	}
+	raw, _ := c19UUID(rng, 5)
+	rows := &message.RowsResult{
+		Metadata: &message.RowsMetadata{ColumnCount: 3, Columns: []*message.ColumnMetadata{
+			{Keyspace: "system", Table: "peers", Name: "peer", Type: datatype.Inet},
+			{Keyspace: "system", Table: "peers", Name: "data_center", Type: datatype.Varchar},
+			{Keyspace: "system", Table: "peers", Name: "host_id", Type: datatype.Uuid}}},
+		Data: message.RowSet{message.Row{[]byte{10, 0, 0, 9}, []byte("dc1"), append([]byte(nil), raw[:]...)}},
+	}
+	rowEP, nerr := resolver.NewEndpoint(proxycore.NewResultSet(rows, primitive.ProtocolVersion4).Row(0))
+	if nerr != nil {
+		r.Inconc("expiry: NewEndpoint: " + nerr.Error())
+		return
+	}
+	targets := []struct {
+		name string
+		ep   proxycore.Endpoint
+	}{{c19TargetCP, eps[0]}, {c19TargetRow, rowEP}}
+	// the node's certificate: valid now, expiring very soon
+	minted := time.Now()
+	lifetime := 1200 * time.Millisecond
+	der, key := c19Leaf(c19LeafSpec{dnsNames: []string{host}, cn: "node", notBefore: minted.Add(-time.Hour), notAfter: minted.Add(lifetime), signer: pki.root})
+	chain := tls.Certificate{Certificate: [][]byte{der}, PrivateKey: key}
+	dial := func(ep proxycore.Endpoint, ver uint16) (bool, error, []*c19ConnObs, bool) {
+		sc := &c19ServerCase{version: ver, chain: chain}
+		node.setCase(sc)
+		ctx, cancel := context.WithTimeout(context.Background(), 20*time.Second)
+		cl, cerr := proxycore.ConnectClient(ctx, ep, proxycore.ClientConnConfig{})
+		if cerr == nil && cl != nil {
+			_, _ = cl.Handshake(ctx, primitive.ProtocolVersion4, nil)
+			_ = cl.Close()
+		}
+		cancel()
+		ok := sc.waitConns(1, 8*time.Second)
+		node.setCase(nil)
+		return cerr == nil, cerr, sc.snapshot(), ok
+	}
+	for ti, tg := range targets {
+		ver := []uint16{tls.VersionTLS12, tls.VersionTLS13}[(idx+ti)%2]
+		// while valid: accepted
+		if time.Since(minted) < lifetime-300*time.Millisecond {
+			acc, cerr, _, _ := dial(tg.ep, ver)
+			r.Eval(1)
+			if acc {
+				r.Obs("expiry_accepted_while_valid", 1)
+			} else {
+				r.Obs("expiry_first_connection_failed:"+c19Reason(cerr), 1)
+			}
+		}
+	}
+	// wait the validity out (input generation, not an oracle reading the clock: the verdict is fixed by construction)
+	if d := lifetime + 400*time.Millisecond - time.Since(minted); d > 0 {
+		time.Sleep(d)
+	}
+	for ti, tg := range targets {
+		ver := []uint16{tls.VersionTLS12, tls.VersionTLS13}[(idx+ti)%2]
+		acc, cerr, obs, ok := dial(tg.ep, ver)
+		r.Eval(1)
+		r.Obs("expiry_connections_after_expiry", 1)
+		r.NonTrivial(fmt.Sprintf("expired-after-endpoint-creation/%s/%s/%s", shape, c19VerName(ver), tg.name))
+		scenario := map[string]interface{}{"kind": "expiry", "index": idx, "target": tg.name}
+		app := 0
+		for _, o := range obs {
+			app += o.AppBytes
+		}
+		if !ok {
+			r.Inconc("expiry: watchdog waiting for the server side of the connection")
+			continue
+		}
+		if acc || app > 0 {
+			r.Violate(mon.Violation{Signature: fmt.Sprintf("C19/accepted-bad-chain/expired-after-endpoint-creation/%s", c19TargetClass(tg.name)),
+				Detail:   fmt.Sprintf("the endpoint for %s (bundle host %q) was created while the node's certificate was valid; %s after the certificate's notAfter a connection through the same endpoint was accepted=%v and the node received %d application bytes (client error: %v)", tg.name, host, time.Since(minted.Add(lifetime)).Round(time.Millisecond), acc, app, cerr),
+				Scenario: scenario, Witness: obs})
+		} else {
+			r.Obs("expiry_rejected_after_expiry", 1)
+		}
+	}
 }
